@@ -76,6 +76,11 @@ def is_late(r):
     return bool(r.get("late")) and r["kind"] == "resp"
 
 
+def in_model_domain(case):
+    """release_conn=True passed explicitly together with preload_content=False is judged by the oracle only"""
+    return not any(q.get("release_now") for q in case["reqs"])
+
+
 def enc_reply(r):
     # the model does not know which request a reply answers: it learns it when the request is sent
     if r["kind"] != "resp":
@@ -248,7 +253,8 @@ def impl(case):
                 last_sock["s"] = None
                 before = net.nconn
                 try:
-                    resp = pool.urlopen("HEAD" if rq["head"] else "GET", "/r%d" % i, preload_content=rq["preload"], pool_timeout=0.01)
+                    kw = {"release_conn": True} if rq.get("release_now") else {}
+                    resp = pool.urlopen("HEAD" if rq["head"] else "GET", "/r%d" % i, preload_content=rq["preload"], pool_timeout=0.01, **kw)
                     outcome = 0
                     status = resp.status
                     if resp.headers.get("X-Req") != str(i):
@@ -335,6 +341,10 @@ def oracle(case, obs):
 
 
 def signature(case, obs, msg):
+    import re
+    m = re.match(r"request #(\d+) was handed a response the server did not send in reply to it", msg or "")
+    if m and int(m.group(1)) >= 1 and case["reqs"][int(m.group(1)) - 1].get("release_now"):
+        return {"kind": "explicit-release-conn-with-unread-body"}
     return {"msg": (msg or "")[:40]}
 
 
@@ -467,6 +477,12 @@ def cases(rng, tier):
                     out.append({"maxsize": maxsize, "reqs": [{"head": False, "preload": False, "caller": list(c)}, {"head": False, "preload": False, "caller": ["read_all"]},
                                                              {"head": False, "preload": True, "caller": ["read_all"]}],
                                 "replies": [dict(PLAIN, first=first, late=True, framing="chunked")] + [dict(PLAIN)] * 12})
+                if c[0] in ("release", "close", "keep"):
+                    # release_conn=True given explicitly with preload_content=False: urlopen itself puts the connection back, body unread
+                    out.append({"maxsize": maxsize, "reqs": [{"head": False, "preload": False, "release_now": True, "caller": list(c)},
+                                                             {"head": False, "preload": False, "caller": ["read_all"]},
+                                                             {"head": False, "preload": True, "caller": ["read_all"]}],
+                                "replies": [dict(PLAIN, first=first, late=True)] + [dict(PLAIN)] * 12})
     n = 7000 if tier == "quick" else 200000
     for _ in range(n):
         out.append(one_case(rng))
